@@ -31,6 +31,11 @@ func BuildMapCodec(p CodecBuilder, registry CodecRegistry, typ reflect.Type, tag
 	if err != nil {
 		return nil, fmt.Errorf("failed to find codec for map key %s. %w", typ.Key().Name(), err)
 	}
+	if typ.Elem().Kind() == reflect.Map {
+		// The map codec expects the map itself when writing, but map values are
+		// only available by reference.
+		return nil, fmt.Errorf("maps of maps are not supported")
+	}
 	valueCodec, err := p.CodecForTypeRegistry(registry, typ.Elem(), "")
 	if err != nil {
 		return nil, fmt.Errorf("failed to find codec for map value %s. %w", typ.Elem().Name(), err)
